@@ -5,14 +5,19 @@
    reused): one step = one thread executes the scheduling-point instruction it stands at
    and then runs its local instructions up to the next scheduling point.
 
-   World.  P processes; process p has a main thread (index 2p) running a script of client
-   calls and a feeder thread (index 2p+1, dormant until the first put of that process starts
-   it) running Queue._feed.  Shared between all processes: the semaphores (0 _sem =
+   World.  N "pairs"; pair q = a main thread (index 2q) running a script of client calls and a
+   feeder SLOT (index 2q+1): the thread running Queue._feed that main thread 2q's call of
+   Queue._start_thread creates (dormant until then).  Every pair belongs to a process
+   (owner own q; the identity by default: one main thread per process); the main threads of
+   one process share that process's Queue object state (below), so several producer threads of
+   one process race on `self._thread is None` / `_start_thread` exactly as far as the code lets
+   them.  Shared between all processes: the semaphores (0 _sem =
    BoundedSemaphore(maxsize), 1 _rlock, 2 _wlock, 3 _unfinished_tasks, 4..7 the
    JoinableQueue's Condition: lock, sleeping, woken, wait) and the pipe -- a list of WHOLE
    messages (justified by C13 + the reader/writer locks around every send/recv).
-   Private to a process: the feeder buffer (collections.deque), the `started` flag
-   (self._thread is not None), and the queue's threading.Condition `_notempty`, modelled
+   Private to a process: the feeder buffer (collections.deque), the list `spawned` of the feeder
+   slots its _start_thread calls have started (self._thread is None iff it is empty), and the
+   queue's threading.Condition `_notempty`, modelled
    as harness/c16_fakes.TCond does it: a lock NL (semaphore 8+2p), a notification semaphore
    NS (9+2p) and a waiter count.  TRUSTED: that this is what threading.Condition does.
 
@@ -51,11 +56,16 @@ Inductive qinstr :=
 | QRecv (dst : nat)                   (* dst := recv_bytes()      (blocks while empty) *)
 | QPoll (timed : flag) (dst : nat)    (* dst := poll([timeout]) *)
 | QClock (dst : nat)                  (* timeout = deadline - monotonic(); dst := (timeout < 0), an oracle *)
+| QStartThread                        (* the body of Queue._start_thread: self._buffer.clear(); self._thread =
+                                         threading.Thread(target=Queue._feed, ...); self._thread.start().  A scheduling
+                                         point (the harness parks the caller at buffer.clear()): the feeder slot of the
+                                         calling main thread becomes runnable; event result = number of items the
+                                         clear dropped *)
 | QExit                               (* the thread's function has returned (Queue._feed BEFORE the repair, after its
                                          `except Exception`): the thread never runs again; not used by the
                                          programs of the repaired code *)
 (* local instructions *)
-| QStart                              (* if self._thread is None: self._start_thread() *)
+| QThreadJ (pc : nat)                 (* if self._thread is not None: goto pc  (the test `self._thread is None` is false) *)
 | QBufAppend (r : nat)                (* self._buffer.append(reg r) *)
 | QBufPop (dst : nat) (epc : nat)     (* dst := bpopleft(); IndexError -> goto epc *)
 | QBufNonEmptyJ (pc : nat)            (* if buffer: goto pc *)
@@ -74,8 +84,10 @@ Inductive qinstr :=
 Definition UNPICKLABLE : Z := 1000.
 Definition picklable (m : Z) : bool := m <? UNPICKLABLE.
 
-Record pstate := mkP { buf : list Z; nw : Z; started : bool; plog : list Z; slog : list Z }.
-Definition dps : pstate := mkP [] 0 false [] [].
+Record pstate := mkP { buf : list Z; nw : Z; spawned : list nat; plog : list Z; slog : list Z }.
+Definition dps : pstate := mkP [] 0 [] [] [].
+(* self._thread is not None *)
+Definition started (ps : pstate) : bool := match spawned ps with [] => false | _ :: _ => true end.
 
 Fixpoint updp (l : list pstate) (i : nat) (v : pstate) : list pstate :=
   match i, l with
@@ -99,20 +111,21 @@ Fixpoint qlocal (p : nat) (prog : list qinstr) (h : list Z) (fuel : nat) (pc : n
     | None => (QLFin E_STUCK, ps)
     | Some i =>
       match i with
-      | QAcq _ _ _ _ | QRel _ | QIsZero _ _ | QSend _ | QRecv _ | QPoll _ _ | QClock _ | QExit => (QLSem pc r, ps)
+      | QAcq _ _ _ _ | QRel _ | QIsZero _ _ | QSend _ | QRecv _ | QPoll _ _ | QClock _ | QStartThread | QExit => (QLSem pc r, ps)
       | QDumps x e => if picklable (getr x r) then qlocal p prog h f (S pc) r ps else qlocal p prog h f e r ps
-      | QStart => qlocal p prog h f (S pc) r (mkP (buf ps) (nw ps) true (plog ps) (slog ps))
+      | QThreadJ t => match spawned ps with [] => qlocal p prog h f (S pc) r ps
+                                          | _ :: _ => qlocal p prog h f t r ps end
       | QBufAppend x => qlocal p prog h f (S pc) r
-                               (mkP (buf ps ++ [getr x r]) (nw ps) (started ps) (plog ps ++ [getr x r]) (slog ps))
+                               (mkP (buf ps ++ [getr x r]) (nw ps) (spawned ps) (plog ps ++ [getr x r]) (slog ps))
       | QBufPop d e =>
         match buf ps with
         | [] => qlocal p prog h f e r ps
-        | m :: rest => qlocal p prog h f (S pc) (setr d m r) (mkP rest (nw ps) (started ps) (plog ps) (slog ps))
+        | m :: rest => qlocal p prog h f (S pc) (setr d m r) (mkP rest (nw ps) (spawned ps) (plog ps) (slog ps))
         end
       | QBufNonEmptyJ t => match buf ps with [] => qlocal p prog h f (S pc) r ps
                                           | _ => qlocal p prog h f t r ps end
-      | QWInc => qlocal p prog h f (S pc) r (mkP (buf ps) (nw ps + 1) (started ps) (plog ps) (slog ps))
-      | QWDec => qlocal p prog h f (S pc) r (mkP (buf ps) (nw ps - 1) (started ps) (plog ps) (slog ps))
+      | QWInc => qlocal p prog h f (S pc) r (mkP (buf ps) (nw ps + 1) (spawned ps) (plog ps) (slog ps))
+      | QWDec => qlocal p prog h f (S pc) r (mkP (buf ps) (nw ps - 1) (spawned ps) (plog ps) (slog ps))
       | QWJz t => if nw ps =? 0 then qlocal p prog h f t r ps else qlocal p prog h f (S pc) r ps
       | QAssertNZ x => if getr x r =? 0 then (QLFin E_ASSERT, ps) else qlocal p prog h f (S pc) r ps
       | QAssertZ x => if getr x r =? 0 then qlocal p prog h f (S pc) r ps else (QLFin E_ASSERT, ps)
@@ -187,9 +200,16 @@ Definition qabort (t : qthread) (h : list Z) (e : Z) (ps : pstate) : qthread * p
 
 (* event = (thread, object, op, result): objects 0.. = semaphore ids, 100 = the pipe;
    op 0 acquire, 1 release, 2 is_zero, 3 send (result = message), 4 recv (message), 5 poll;
-   101 = the clock, op 6 = remaining time computed (result 1 = the deadline has passed) *)
+   101 = the clock, op 6 = remaining time computed (result 1 = the deadline has passed);
+   102 = the process's feeder-thread slot `self._thread`, op 7 = _start_thread ran (result = number of
+   items its buffer.clear() dropped) *)
 Definition PIPE : nat := 100.
 Definition CLOCK : nat := 101.
+Definition THREAD : nat := 102.
+
+(* a feeder slot that no _start_thread of its process has started yet *)
+Definition qdormant (g : qsys) (i : nat) (t : qthread) : bool :=
+  qfeeder t && negb (existsb (Nat.eqb i) (spawned (nth (qproc t) (procs g) dps))).
 
 Definition commit (g : qsys) (i : nat) (ss : list sem) (pp : list Z) (sl : list (nat * Z)) (gl : list Z)
            (x : qthread * pstate) : qsys :=
@@ -203,7 +223,7 @@ Definition qstep (g : qsys) (i : nat) (go : bool) : option (qsys * event) :=
     let p := qproc t in
     let ps := nth p (procs g) dps in
     if qfin t then None
-    else if qfeeder t && negb (started ps) then None
+    else if qdormant g i t then None
     else
     match nth_error (code (qcid t)) (qpc t) with
     | Some (QAcq sr b tm d) =>
@@ -250,7 +270,7 @@ Definition qstep (g : qsys) (i : nat) (go : bool) : option (qsys * event) :=
         let m := getr x (qrg t) in
         Some (commit g i (qsems g) (pipe g ++ [m]) (sendlog g ++ [(p, m)]) (getlog g)
                      (qadvance t (S (qpc t)) (qrg t) (qheld t)
-                               (mkP (buf ps) (nw ps) (started ps) (plog ps) (slog ps ++ [m]))),
+                               (mkP (buf ps) (nw ps) (spawned ps) (plog ps) (slog ps ++ [m]))),
               (i, PIPE, 3, m))
       else None
     | Some (QRecv d) =>
@@ -281,6 +301,14 @@ Definition qstep (g : qsys) (i : nat) (go : bool) : option (qsys * event) :=
       let z := if go then 0 else 1 in
       Some (commit g i (qsems g) (pipe g) (sendlog g) (getlog g)
                    (qadvance t (S (qpc t)) (setr d z (qrg t)) (qheld t) ps), (i, CLOCK, 6, z))
+    | Some QStartThread =>
+      (* Queue._start_thread, called by main thread i: the buffer is cleared, the feeder slot i+1 starts *)
+      if go then
+        Some (commit g i (qsems g) (pipe g) (sendlog g) (getlog g)
+                     (qadvance t (S (qpc t)) (qrg t) (qheld t)
+                               (mkP [] (nw ps) (spawned ps ++ [S i]) (plog ps) (slog ps))),
+              (i, THREAD, 7, Z.of_nat (length (buf ps))))
+      else None
     | _ => None         (* QExit: the thread is gone; local instructions are never the current one *)
     end
   end.
@@ -299,21 +327,28 @@ Fixpoint qrun (g : qsys) (sched : list (nat * bool)) : qsys * list event * bool 
     end
   end.
 
-(* initial system: scripts = one script per process; FEED = call id of the feeder program *)
+(* initial system: scripts = one script per pair (main thread 2q + feeder slot 2q+1); own = the
+   process of each pair (a pair beyond the end of own is its own process: own = [] is "one main
+   thread per process"); FEED = call id of the feeder program.  There are as many process states
+   (and per-process semaphores) as pairs; those of processes that own no pair are never used. *)
 Variable FEED : nat.
 
-Fixpoint qinit_threads (p : nat) (scripts : list (list qcall)) : list qthread * list pstate :=
+Definition owner (own : list nat) (q : nat) : nat := nth q own q.
+
+Fixpoint qinit_threads (q : nat) (own : list nat) (scripts : list (list qcall)) (pss : list pstate)
+  : list qthread * list pstate :=
   match scripts with
-  | [] => ([], [])
+  | [] => ([], pss)
   | sc :: rest =>
-    let '(tm, ps1) := qstart p false [] [] sc dps in
+    let p := owner own q in
+    let '(tm, ps1) := qstart p false [] [] sc (nth p pss dps) in
     let '(tf, ps2) := qstart p true [] [] [(FEED, 0, 0, 0)] ps1 in
-    let '(ts, pss) := qinit_threads (S p) rest in
-    (tm :: tf :: ts, ps2 :: pss)
+    let '(ts, pss') := qinit_threads (S q) own rest (updp pss p ps2) in
+    (tm :: tf :: ts, pss')
   end.
 
-Definition qinit_sys (ss : list sem) (scripts : list (list qcall)) : qsys :=
-  let '(ts, pss) := qinit_threads 0 scripts in
+Definition qinit_sys (ss : list sem) (own : list nat) (scripts : list (list qcall)) : qsys :=
+  let '(ts, pss) := qinit_threads 0 own scripts (repeat dps (length scripts)) in
   mkQS ss ts [] pss [] [].
 
 End WithCode.
